@@ -327,7 +327,7 @@ def run_nongauss_case(case, rep):
     for k, c in enumerate(case["cmds"]):
         ng.ref_apply(f, c)
         # compare once all modes that are going to be prepared have been prepared
-        if k + 1 < len(case["cmds"]) and case["cmds"][k + 1]["op"] in ("Catstate", "Fock", "Coherent"):
+        if k + 1 < len(case["cmds"]) and case["cmds"][k + 1]["op"] in ("Catstate", "Fock", "Coherent", "GKP"):
             continue
         if f.tail(Dref - 4) > 1e-9:
             rep.skip("nongauss reference truncation")
@@ -335,8 +335,11 @@ def run_nongauss_case(case, rep):
         sub = dict(case, cmds=case["cmds"][: k + 1])
         ref = ng.ref_dm(f, Dc)
         nprefix += 1
+        fock_only = any(x["op"] in ng.FOCK_ONLY for x in sub["cmds"])
         for conf in ({"backend": "bosonic"}, {"backend": "fock", "cutoff_dim": 14 if n == 2 else 18, "pure": True},
                      {"backend": "fock", "cutoff_dim": 14 if n == 2 else 18, "pure": False}):
+            if fock_only and conf["backend"] == "bosonic":
+                continue  # Kerr, cross-Kerr and cubic phase gates are accepted by the Fock backend only
             lab = conf["backend"] if conf["backend"] != "fock" else ("fock-pure" if conf["pure"] else "fock-mixed")
             locus = "%s.%s" % (conf["backend"], c["op"])
             try:
@@ -350,7 +353,7 @@ def run_nongauss_case(case, rep):
             if snap.kind == "bosonic":
                 got = ng.bosonic_dm(snap, Dc)
                 # the bosonic number-state preparation is an approximation by construction (quality parameter r = 0.05)
-                tol = 3e-2 if case.get("approx") else 1e-7
+                tol = 3e-2 if case.get("approx") else 1e-7 + 100 * f.tail(Dref - 4)
                 rep.monitor("nongauss:bosonic-vs-reffock" + ("(approximate Fock preparation)" if case.get("approx") else ""))
             else:
                 got = ng.fock_dm(snap, Dc)
@@ -369,7 +372,7 @@ def run_nongauss_case(case, rep):
 
 def plan(tier, seed, scale=1.0):
     if tier == "quick":
-        ng, nf, nn = int(60 * scale), int(10 * scale), max(1, int(3 * scale))
+        ng, nf, nn = int(60 * scale), int(10 * scale), max(1, int(4 * scale))
     else:
         ng, nf, nn = int(1200 * scale), int(120 * scale), int(60 * scale)
     shards = []
@@ -400,8 +403,10 @@ def run_shard(shard, rep):
     # (these cases run whole prefixes on fresh engines and look at the final simulator state only: the lock-step tap is off)
     runner.observers = []
     runner.tap.uninstall()
-    for _ in range(shard.get("nn", 0)):
-        case = nongauss.gen_case(rng)
+    for i in range(shard.get("nn", 0) + 1):
+        # alternately: cat / number states under Gaussian gates (bosonic and fock), and GKP states with Kerr, cross-Kerr,
+        # cubic / quadratic phase gates and two-mode squeezing (fock pure vs mixed vs RefFock; bosonic where accepted)
+        case = nongauss.gen_case(rng, family="fock-ops" if i % 2 else "gaussian-ops")
         case["nongauss"] = True
         try:
             run_nongauss_case(case, rep)
